@@ -807,3 +807,89 @@ def fam_flow(seed, n, dirs=("fwd", "rev"), caps=(0, 0, 1, 2)):
         pol = {"kind": rng.choice(["random", "random", "lazy", "slowsrv", "slowcli"]), "seed": rng.randrange(1 << 30), "max": 6000}
         out.append(scenario("flow-%s-%s-cap%d-%d" % (kind, d, cap, i), cfg, rpcs, pol, meta={"family": "flow", "done": done}))
     return out
+
+
+# ---------------------------------------------------------------------------
+# registry (C12): several reverse tunnels per handler
+
+
+def rstep(do, **kw):
+    d = {"do": do}
+    d.update(kw)
+    return d
+
+
+REG_VIAS = ["all", "key:k1", "key:k2", "key:"]
+REG_GATES = ["reg.pre.add", "reg.add.global", "reg.add.key", "reg.unreg.global", "reg.unreg.key", "rts.pre.add"]
+
+
+def fam_registry(seed, n):
+    rng = random.Random(seed)
+    out = []
+    keys = {1: "k1", 2: "k1", 3: "k2", 4: ""}
+    # (1) random histories (every Serve opens a tunnel with a fresh number)
+    for i in range(n):
+        steps = []
+        live = set()
+        op = 0
+        nxt = 0
+        for _ in range(rng.randint(8, 28)):
+            c = rng.random()
+            if c < 0.25 and len(live) < 4:
+                nxt += 1
+                live.add(nxt)
+                steps.append(rstep("serve", t=nxt, key=rng.choice(["k1", "k1", "k2", ""])))
+            elif c < 0.40 and live:
+                t = rng.choice(sorted(live))
+                live.discard(t)
+                steps.append(rstep(rng.choice(["stop", "close", "fail", "ctxcancel"]), t=t))
+            elif c < 0.75:
+                steps.append(rstep("rpc", via=rng.choice(REG_VIAS)))
+            elif c < 0.85:
+                steps.append(rstep("ready", via=rng.choice(REG_VIAS)))
+            elif c < 0.95:
+                op += 1
+                steps.append(rstep("waitready", via=rng.choice(REG_VIAS), op=op))
+            elif op:
+                steps.append(rstep("waitcancel", op=rng.randint(1, op)))
+        out.append({"name": "registry-random-%d" % i, "steps": steps, "meta": {"family": "registry"}})
+    # (2) round robin over stable sets
+    for ntun in (1, 2, 3, 4):
+        steps = [rstep("serve", t=t, key="k1") for t in range(1, ntun + 1)]
+        steps += [rstep("rpc", via="all") for _ in range(2 * ntun + 1)] + [rstep("rpc", via="key:k1") for _ in range(2 * ntun + 1)]
+        steps += [rstep("stop", t=1)] + [rstep("rpc", via="all") for _ in range(2 * ntun)]
+        out.append({"name": "registry-roundrobin-%d" % ntun, "steps": steps, "meta": {"family": "registry"}})
+    # (3) every sub-step of opening / unregistering held while the tunnel ends or is used
+    for g in REG_GATES:
+        for end in ("fail", "ctxcancel", "stop", "close", "none"):
+            for other in (True, False):
+                steps = []
+                if other:
+                    steps.append(rstep("serve", t=2, key="k1"))
+                hold_open = g in ("reg.pre.add", "reg.add.global", "reg.add.key", "rts.pre.add")
+                gt = 0 if g == "rts.pre.add" else 1
+                if hold_open:
+                    steps.append(rstep("serve", t=1, key="k1"))          # parks during admission
+                    steps += [rstep("rpc", via="key:k1"), rstep("ready", via="key:k1")]
+                    if end != "none":
+                        steps.append(rstep(end, t=1))
+                    steps += [rstep("rpc", via="key:k1"), rstep("rpc", via="all")]
+                    steps.append(rstep("release", point=g, t=gt))
+                else:
+                    steps.append(rstep("serve", t=1, key="k1"))
+                    steps.append(rstep("rpc", via="key:k1"))
+                    steps.append(rstep(end if end != "none" else "stop", t=1))   # parks while unregistering
+                    steps += [rstep("rpc", via="key:k1"), rstep("rpc", via="all"), rstep("ready", via="key:k1")]
+                    steps.append(rstep("release", point=g, t=gt))
+                steps += [rstep("rpc", via="key:k1"), rstep("rpc", via="key:k1"), rstep("rpc", via="all"), rstep("ready", via="key:k1"), rstep("ready", via="all")]
+                out.append({"name": "registry-gate-%s-%s-%s" % (g, end, "other" if other else "alone"), "gates": [g], "steps": steps,
+                            "meta": {"family": "registry"}})
+    # (4) ReverseTunnelServer: Serve after Stop / GracefulStop, Stop after GracefulStop, with 0..2 tunnels
+    for first in ("stop", "gstop"):
+        for pre in (0, 1):
+            steps = [rstep("serve", t=1, key="k1")] if pre else [rstep("serve", t=1, key="k1"), rstep("close", t=1)]
+            steps += [rstep("rpc", via="all"), rstep(first, t=1), rstep("rpc", via="all"), rstep("reserve", t=1, **{"as": 5}), rstep("rpc", via="all")]
+            if first == "gstop":
+                steps += [rstep("stop", t=1), rstep("rpc", via="all")]
+            out.append({"name": "registry-rts-%s-%d" % (first, pre), "steps": steps, "meta": {"family": "registry"}})
+    return out
